@@ -639,6 +639,9 @@ def scripted_cases(ctx):
         ([], [2, 1], [0x10], [0x22], 9),
         ([5], [1, 5, 6], [0x3E, 0x10], [0x10], 11),
         ([0, 126], [64], [0x10], [], 8),
+        # ids that collide in CPython's 8-entry set table: the second pass walks {9, 17, 2} / {8, 16, 24, 0} in table order
+        ([1], [9, 17, 2], [0x10], [], 12),
+        ([8], [16, 24, 0, 1], [0x10], [], 11),
     ]
     if not ctx.quick or ctx.widened:
         small += [([1, 2], [3, 4], [0x10], [], 13), ([7, 9, 8], [8], [0x10, 0x31], [0x19], 12)]
@@ -670,6 +673,19 @@ def seeded_cases(ctx, ALL):
         (list(range(N_SESS)), list(range(N_SESS)), ALL[:], ALL[:]), {"p_session": 3.0, "p_service": 0.5, "p_sub_function": 0.1})})
     cases.append({"label": "seeded:empty-lists", "seed": 6, "params": mk_params(([], [], [], []), {})})
     cases.append({"label": "seeded:empty-lists", "seed": 6, "params": mk_params(([], [], [0x10], []), {"p_session": 1.0})})
+    # session ids that collide in CPython's set tables (equal low bits), generous transition probabilities: level sets of
+    # many elements whose iteration order is neither sorted nor insertion order, several resizes
+    for _ in range(ctx.pick(250, 2500)):
+        low = rng.sample(range(8), rng.choice([1, 2, 3]))
+        fam = [x for x in range(N_SESS) if x % 8 in low or (x % 32 == 5 and rng.random() < 0.5)]
+        os_ = rng.sample(fam, min(len(fam), rng.choice([3, 5, 8, 14, 30])))
+        if rng.random() < 0.3:
+            os_ += rng.sample(range(N_SESS), rng.choice([1, 3, 10]))
+        ms = rng.choice([[1], [], rng.sample(fam, min(len(fam), 3)), [1] + rng.sample(range(N_SESS), 2)])
+        probs = {"p_session": rng.choice([0.2, 0.4, 0.7, 1.0, 1.5, 4.0]), "p_service": rng.choice([0.0, 0.2]),
+                 "p_sub_function": rng.choice([0.0, 0.05])}
+        cases.append({"label": "seeded:colliding-sessions", "seed": rng.randrange(2 ** 31),
+                      "params": mk_params((ms, os_, [0x10], [0x3E, 0x22]), probs)})
     for _ in range(ctx.pick(400, 4000)):
         lists = gen_lists(rng, ALL)
         probs = gen_probs(rng)
